@@ -120,6 +120,7 @@ def cases(tier):
     for backend in ("sql", "kv"):
         for fam in FAMILIES:
             out.append((backend, "linear", [fam], 0))
+    out += sched_cases(tier)
     return out
 
 
@@ -170,9 +171,120 @@ def run_linear(case):
             "sample": {"mode": "linear", "backend": backend, "family": fam, "histories": len(hists)}}
 
 
+# ---------------------------------------------------------------------------------------------------
+# Two connections at once (SCHED): the supersession of one address while another connection's event is being stored.
+def _sched_events():
+    a = CHECK.U()["U9a"]
+    ev = dict(a)
+    ev["b_r_t20"] = make_event("B", 10002, 20, [], "B newer")
+    return ev
+
+
+SCHED = {
+    # name: (pre-stored, script, must be gone at the end, must be present at the end)
+    "replace_vs_note": (["a_r_t10"], [("c1", "a_r_t20"), ("c2", "a_k1_t10")], ["a_r_t10"], ["a_r_t20", "a_k1_t10"]),
+    "note_vs_replace": (["a_r_t10"], [("c1", "a_k1_t10"), ("c2", "a_r_t20")], ["a_r_t10"], ["a_r_t20", "a_k1_t10"]),
+    "two_addresses": (["a_r_t10", "b_r_t10"], [("c1", "a_r_t20"), ("c2", "b_r_t20")], ["a_r_t10", "b_r_t10"], ["a_r_t20", "b_r_t20"]),
+    "same_address": (["a_r_t5"], [("c1", "a_r_t10"), ("c2", "a_r_t20")], ["a_r_t5"], ["a_r_t20"]),
+    "meta_vs_note": (["a_k0_t5"], [("c1", "a_k0_t10"), ("c2", "a_k1_t10")], ["a_k0_t5"], ["a_k0_t10", "a_k1_t10"]),
+}
+
+
+def sched_scenario(name, backend):
+    from ..explorer import Scenario
+
+    base, _, policy = name.partition("@")
+    pre, script, gone, present = SCHED[base]
+    E = _sched_events()
+
+    def setup(w):
+        f = w.connect("setup", "9.9.9.9")
+        w.run(1e6)
+        for nm in pre:
+            w.send("setup", ["EVENT", E[nm]], 1e6)
+        f.drop()
+        w.run(1e6)
+        del w.conns["setup"]
+        have = store.decode_store(backend, w.dump())
+        if any(E[nm]["id"] not in have for nm in pre):
+            from ..env import HarnessError
+
+            raise HarnessError("scenario setup did not store %r" % pre)
+
+    return Scenario("%s|%s" % (name, backend), backend, [("c1", "1.1.1.1"), ("c2", "2.2.2.2")], [(cn, ["EVENT", E[nm]]) for cn, nm in script],
+                    storage_options={"stats_interval": 1e15}, setup=setup, horizon=30.0, policy=policy or "actor")
+
+
+def sched_cases(tier):
+    from .. import explorer, env
+
+    env.boot()
+    out = []
+    for backend in ("sql", "kv"):
+        for name in [n + sfx for n in SCHED for sfx in ("", "@fair")]:
+            out.append((backend, "sched", [name], ()))
+            firsts, npts = explorer.first_level(sched_scenario(name, backend))
+            for p in firsts:
+                out.append((backend, "sched", [name], tuple(p)))
+    return out
+
+
+def run_sched(case, tier="quick"):
+    from .. import explorer
+
+    backend, _, (name,), prefix = case
+    base = name.partition("@")[0]
+    pre, script, gone, present = SCHED[base]
+    E = _sched_events()
+    scn = sched_scenario(name, backend)
+    viol = []
+    cid = "sched|%s|%s" % (name, backend)
+    stats = {"n": 0, "points": 0}
+    outcomes = set()
+
+    def on_exec(x):
+        w = x.world
+        sig = "sched=%s" % explorer.rle(x.choices)
+        stats["n"] += 1
+        stats["points"] += len(x.points)
+        have = store.decode_store(backend, w.dump())
+        oks = {}
+        for cn, nm in script:
+            for k, _, p in w.conns[cn].transcript:
+                if k == "send" and p.startswith('["OK"') and E[nm]["id"] in p:
+                    oks[nm] = '",true,' in p
+        outcomes.add(tuple(sorted(n for n, e in E.items() if e["id"] in have)))
+        if not all(oks.get(nm) for _, nm in script):
+            return  # a refused submission (engine busy ...) promises nothing; C06 judges acknowledgements
+        for nm in gone:
+            if E[nm]["id"] in have:
+                viol.append({"case": cid, "clause": "older-superseded", "sig": sig + "|" + nm,
+                             "detail": "%s was stored before and is older than an accepted version of its address, but is still stored | %s schedule=%s" % (nm, scn.name, x.choices)})
+        for nm in present:
+            if E[nm]["id"] not in have:
+                viol.append({"case": cid, "clause": "newest-kept" if R.address(E[nm]) else "other-address-untouched", "sig": sig + "|" + nm,
+                             "detail": "%s was acknowledged and nothing newer supersedes it, but it is not stored | %s schedule=%s" % (nm, scn.name, x.choices)})
+        for v in viol:
+            v.setdefault("exact", {"scenario": name, "backend": backend, "choices": list(x.choices)})
+
+    # a replacement against an unrelated note: explored one deviation deeper from the run-to-completion base schedule (letting the other
+    # connection start AND overtake costs two)
+    deeper = 1 if (base in ("replace_vs_note", "note_vs_replace") and "@" not in name) else 0
+    if not prefix:
+        explorer.explore(scn, 0, on_exec)
+    else:
+        explorer.explore(scn, deeper, on_exec, root_prefix=list(prefix))
+    return {"id": "%s|p=%s" % (cid, explorer.rle(list(prefix))), "viol": viol, "outcome": sorted(map(repr, outcomes)), "outcome_is_set": True,
+            "evals": stats["n"], "states": stats["points"], "transitions": stats["points"], "nontrivial": True, "desc": describe(case),
+            "extra": {"sched_executions": stats["n"], "sched_choice_points": stats["points"]},
+            "sample": {"mode": "sched", "scenario": scn.name, "prefix": list(prefix), "executions": stats["n"]}}
+
+
 def run_case(case):
     if case[1] == "linear":
         return run_linear(case)
+    if case[1] == "sched":
+        return run_sched(case)
     return _base_run_case(case)
 
 
@@ -180,7 +292,9 @@ def coverage(tier, agg):
     c = _base_coverage(tier, agg)
     c["rule"] += " | one-process histories: every arrival order of every subset (>= 2) of the versions of one address (%s), each behind a bystander and " \
                  "the shorter ones with the first version re-sent at the end, run without restoring the store in between (what the relay keeps in " \
-                 "memory between events is then part of the state), same oracle at every step" % ", ".join("%s: %d versions" % (k, len(v[1])) for k, v in FAMILIES.items())
+                 "memory between events is then part of the state), same oracle at every step | sched: two connections at once (a replacement vs. a note, two " \
+                 "addresses, two versions of one address, metadata vs. note) on a pre-filled store under both base schedules with <= 1 deviation (<= 2 from the run-to-completion schedule for replacement vs. note): at quiescence " \
+                 "every pre-stored older version is gone, every acknowledged newest version and bystander is stored" % ", ".join("%s: %d versions" % (k, len(v[1])) for k, v in FAMILIES.items())
     return c
 
 
